@@ -1638,11 +1638,15 @@ where
                     });
                 }
 
-                entry.size = new_entry_size;
-                let entry_ptr = EntryPtr::new(entry as *mut Entry<K, V>);
-                self.current_size += diff;
+                // Make room before the growth is accounted for. Ejecting runs
+                // user code (hashing and comparing keys); if that panics, the
+                // size limit must still hold for the sizes accounted so far.
+
+                let mut entry_ptr = EntryPtr::new(entry as *mut Entry<K, V>);
                 self.touch_ptr(entry_ptr);
-                self.eject_to_target(max_size);
+                self.eject_to_target(max_size - diff);
+                entry_ptr.get_mut().size = new_entry_size;
+                self.current_size += diff;
             }
             else {
                 // The operation was non-expanding; everything is ok.
